@@ -471,3 +471,104 @@ Example one_underscore_per_character_examples :
   sanitize (bytes [226; 130]) = "__"%string /\
   utf8_chars (bytes [99; 195; 169; 226; 130; 172; 240; 157; 132; 158]) = [UCp 99%N; UCp 233%N; UCp 8364%N; UCp 119070%N].
 Proof. vm_compute. repeat split; reflexivity. Qed.
+
+(* ---------------------------------------------------------------------------------------------------------------- *)
+(* `| logfmt l1="k1", l2="k2", ...`: every label holds the value of the LAST pair of its key, whatever other labels name *)
+Definition first_key (ps : list ahead) (l : string) : option string :=
+  match pfind ps l with Some (PKey k :: _) => Some k | _ => None end.
+Definition lookup_from (found : option string) (pairs : list (string * string)) (key : string) : option string :=
+  fold_left (fun f kv => if String.eqb (fst kv) key then Some (snd kv) else f) pairs found.
+
+Lemma lookup_from_found key : forall pairs found,
+  lookup_from found pairs key = match lookup_from None pairs key with Some v => Some v | None => found end.
+Proof.
+  unfold lookup_from. induction pairs as [|kv r IH]; intros found; [reflexivity|]. cbn [fold_left].
+  rewrite IH. rewrite (IH (if String.eqb (fst kv) key then Some (snd kv) else None)).
+  destruct (fold_left _ r None); [reflexivity|]. destruct (String.eqb (fst kv) key); reflexivity.
+Qed.
+
+Lemma assign_labels_find v : forall ls m l,
+  lfind (fold_left (fun m' l' => if String.eqb l' EmptyString then m' else lset m' l' v) ls m) l =
+  if mem_str l ls && negb (String.eqb l EmptyString) then Some v else lfind m l.
+Proof.
+  induction ls as [|x r IH]; intros m l; cbn [fold_left mem_str]; [reflexivity|]. rewrite IH.
+  destruct (String.eqb_spec l x) as [E|E].
+  - subst x. cbn [orb]. destruct (String.eqb l EmptyString) eqn:El; cbn [negb andb].
+    + rewrite andb_false_r. reflexivity.
+    + destruct (mem_str l r); cbn [andb]; [reflexivity|]. apply lfind_lset_same.
+  - cbn [orb]. destruct (mem_str l r && negb (String.eqb l EmptyString)); [reflexivity|].
+    destruct (String.eqb x EmptyString); [reflexivity|]. now apply lfind_lset_other.
+Qed.
+
+Lemma fields_of_mem ps key l : NoDup (map fst ps) ->
+  mem_str l (fields_of ps key) = match first_key ps l with Some k => String.eqb k key | None => false end.
+Proof.
+  unfold first_key, fields_of. induction ps as [|a r IH]; intros Hnd; [reflexivity|].
+  inversion Hnd as [|? ? Hnot Hnd']; subst. cbn [flat_map pfind].
+  assert (Hm : forall x y, mem_str l (x ++ y) = mem_str l x || mem_str l y).
+  { induction x as [|z x IHx]; intros y; cbn [app mem_str]; [reflexivity|]. now rewrite IHx, orb_assoc. }
+  rewrite Hm, (IH Hnd'). destruct (String.eqb_spec l (fst a)) as [E|E].
+  - subst l. rewrite (pfind_notin r (fst a) Hnot), orb_false_r.
+    destruct (snd a) as [|[k|i] rest]; cbn [mem_str]; try reflexivity.
+    destruct (String.eqb k key); cbn [mem_str]; [now rewrite String.eqb_refl|reflexivity].
+  - replace (mem_str l match snd a with PKey k :: _ => if String.eqb k key then [fst a] else [] | _ => [] end) with false; [reflexivity|].
+    destruct (snd a) as [|[k|i] rest]; try reflexivity. destruct (String.eqb k key); [|reflexivity]. cbn [mem_str].
+    apply String.eqb_neq in E. now rewrite E.
+Qed.
+
+Lemma logfmt_fields_from ps : NoDup (map fst ps) -> forall pairs acc l, l <> EmptyString ->
+  lfind (fold_left (fun m kv => fold_left (fun m' l' => if String.eqb l' EmptyString then m' else lset m' l' (snd kv))
+                                          (fields_of ps (fst kv)) m) pairs acc) l =
+  match first_key ps l with
+  | Some k => match lookup_from None pairs k with Some v => Some v | None => lfind acc l end
+  | None => lfind acc l
+  end.
+Proof.
+  intros Hnd. induction pairs as [|kv r IH]; intros acc l Hl.
+  - cbn. destruct (first_key ps l); reflexivity.
+  - cbn [fold_left]. rewrite (IH _ l Hl), assign_labels_find, (fields_of_mem ps (fst kv) l Hnd).
+    apply String.eqb_neq in Hl. rewrite Hl. cbn [negb]. rewrite andb_true_r.
+    destruct (first_key ps l) as [k|]; [|reflexivity].
+    unfold lookup_from at 2. cbn [fold_left]. fold (lookup_from (if String.eqb (fst kv) k then Some (snd kv) else None) r k).
+    rewrite (lookup_from_found k r (if String.eqb (fst kv) k then Some (snd kv) else None)).
+    destruct (lookup_from None r k); [reflexivity|]. rewrite (String.eqb_sym k (fst kv)).
+    destruct (String.eqb (fst kv) k); reflexivity.
+Qed.
+
+Theorem logfmt_fields_is_lookup ps pairs l : NoDup (map fst ps) -> l <> EmptyString ->
+  lfind (logfmt_fields ps pairs) l = match first_key ps l with Some k => logfmt_lookup pairs k | None => None end.
+Proof.
+  intros Hnd Hl. unfold logfmt_fields. rewrite (logfmt_fields_from ps Hnd pairs [] l Hl). cbn [lfind].
+  unfold logfmt_lookup, lookup_from. destruct (first_key ps l) as [k|]; [|reflexivity]. destruct (fold_left _ pairs None); reflexivity.
+Qed.
+
+Lemma logfmt_fields_no_empty ps : forall pairs acc,
+  lfind (fold_left (fun m kv => fold_left (fun m' l' => if String.eqb l' EmptyString then m' else lset m' l' (snd kv))
+                                          (fields_of ps (fst kv)) m) pairs acc) EmptyString = lfind acc EmptyString.
+Proof.
+  induction pairs as [|kv r IH]; intros acc; [reflexivity|]. cbn [fold_left]. rewrite IH, assign_labels_find.
+  cbn [String.eqb negb]. now rewrite andb_false_r.
+Qed.
+
+(* in the form of the check's oracle: the specification oracle of the logfmt rows accepts what the model assigns *)
+Theorem logfmt_meets_the_oracle ps pairs i : NoDup (map fst ps) -> (forall a, List.In a ps -> fst a <> EmptyString) ->
+  l_spec_violation {| l_id := i; l_params := ps; l_pairs := Some pairs; l_obs := logfmt_decode ps (Some pairs) |} = false.
+Proof.
+  intros Hnd Hne. unfold l_spec_violation. cbn [l_pairs l_params l_obs logfmt_decode].
+  destruct ps as [|a0 ps0]; [rewrite logfmt_names_by_value; now rewrite lbls_eqb_refl|].
+  set (ps := a0 :: ps0) in *.
+  match goal with |- (if ?g then _ else _) = false => destruct g; [|reflexivity] end.
+  apply negb_false_iff. apply andb_true_intro. split.
+  - apply forallb_forall. intros a Ha. destruct (single_key a) as [k|] eqn:Ek; [|reflexivity].
+    assert (Hs : snd a = [PKey k]).
+    { unfold single_key in Ek. destruct (snd a) as [|[k'|j] [|y r]]; try discriminate. now inversion Ek. }
+    pose proof (logfmt_fields_is_lookup ps pairs (fst a) Hnd (Hne a Ha)) as W.
+    unfold first_key in W. rewrite (pfind_in ps a Hnd Ha), Hs in W.
+    rewrite lget_lfind, mem_lfind, W. destruct (logfmt_lookup pairs k); [now rewrite String.eqb_refl|reflexivity].
+  - apply forallb_forall. intros [k x] Hin. cbn [fst].
+    pose proof (lfind_of_member _ _ _ Hin) as Hfound.
+    destruct (String.eqb_spec k EmptyString) as [->|Hk].
+    + exfalso. apply Hfound. unfold logfmt_fields. now rewrite logfmt_fields_no_empty.
+    + rewrite (logfmt_fields_is_lookup ps pairs k Hnd Hk) in Hfound. unfold first_key in Hfound.
+      destruct (pfind ps k) as [p|] eqn:E; [exact (pfind_some_mem _ _ _ E)|congruence].
+Qed.
